@@ -113,7 +113,7 @@ pub fn c06(o: &mut Out, seed: u64, sc: &Scale) {
         free_rounds: 2,
         max_rounds: 90,
     };
-    let cap = if sc.thorough { 400_000 } else { 3_000 };
+    let cap = if sc.thorough { 40_000 } else { 3_000 };
     exhaustive(o, "exh_data", seed, &base, sc.depth, cap);
     // --- exhaustive from the first SYN: one segment each way, no close.
     let mut hs = base.clone();
